@@ -114,3 +114,46 @@ def register(R):
     R.tasks.append(Bounded('bounded:C06-streams-and-includes', ('C06',), run_c06,
                            'merge sequences of 2-4 generated documents (depth<=3) split across sources / one multi-document source / includes in two directories / nested includes; quick 60, thorough 800 sequences',
                            stands_in_for='Builder.add_source, yaml.parse, SubBuilder.build, IncludeNode.on_preprocess_impl (file system), ComposedNode.__init__ around already parsed stages, PathNode'))
+
+
+# ------------------------------------------------------------------------------------------------ C01
+def run_c01(repo, tier, seed, only=None):
+    import yaml
+    ay = load(repo)
+    rng = random.Random(10000 + seed)
+    R = Runner('C01')
+    name = 'bounded:C01.single-source-evaluates-to-its-plain-yaml-content'
+    fixed = ['!force {a: {b: [1, 2]}}', '{_x: 1, y: {_z: [1, {_w: 2}]}}', '{a: !del [1, [2, 3]], b: !merge {c: !weak 1}}', '{a: !new {b: !unsafe [1, 2]}}',
+             "{a: !metadata{{'k': 1}} 5, b: !metadata{{'priority': 1, 'm': 'x'}} [1, 2]}", '{1: a, 2.5: b, c: 1.5, d: null, e: true, f: "1"}']
+    cases = [(t, None) for t in fixed]
+    for _ in range(n_cases(tier, 300, 5000)):
+        g = G.Gen(rng, tags=('force', 'weak', 'del', 'merge', 'new', 'unsafe'), p_tag=0.4, int_keys=True)
+        g.allow_remove_idiom = True
+        d = g.map(3, top=True)
+        if rng.random() < 0.3:
+            d = (d[0], d[1], rng.choice(['force', 'weak', 'del', 'merge', 'new', 'unsafe']))
+        cases.append((G.render(d), G.render(G.strip_tags(d))))
+    for text, plain_text in cases:
+        if plain_text is None:
+            import re
+            plain_text = re.sub(r'![a-z]+(\{\{.*?\}\})?\s', '', text)
+        try:
+            exp = yaml.load(plain_text, Loader=yaml.Loader)
+        except Exception as e:
+            continue
+        got = build(ay, [text])
+        R.case(text, {'doc': text, 'tag_erased': plain_text})
+        if got[0] != 'ok' or not typed_eq(got[1], exp):
+            R.fail(name, f'doc={text!r}: expected (PyYAML on the tag-erased text) {exp!r}, got {got!r}'[:700], {'family': 'c01', 'docs': [text]})
+    return R.result()
+
+
+def register_c01(R):
+    R.tasks.append(Bounded('bounded:C01-tag-transparency', ('C01',), run_c01,
+                           'mapping documents of depth<=3, width<=3, keys from {a,b,x,q,_u,0,1}, at most one merge-control tag per node (any placement), plus metadata syntax samples; quick 300 / thorough 5000 documents',
+                           stands_in_for='PyYAML composition/resolution, _make_node, ConfigNodeMeta type deduction, ComposedNode.__init__, container evaluation (end to end through Config.build)'))
+
+
+def _reg_all(R):
+    register(R)
+    register_c01(R)
